@@ -214,9 +214,13 @@ def gen_program(r: Rng, size=30, sp=None, allow_undefined=False, stdout_writes=T
                 stream = r.choice([0, 0, 1, 255, 256, 0x300, 0x7FF, 0x800, -1]) if stdout_writes else r.choice([256, 0x300, 0x7FF, 0x800, 0x100])
                 p.op("LDAC", r.choice([0x41, 0x0A, 0, 0xFF, 0x80, 0x141, r.below(256)])); p.op("LDBM", 1); p.op("STAI", 2)
                 p.op("LDAC", stream); p.op("STAI", 3); p.op("LDAC", 1); p.opr(3)
+                for _ in range(r.choice([0, 0, 0, 1, 2])):
+                    p.opr(3)                                  # back-to-back system calls: each one is performed
             elif k < 18:
                 stream = r.choice([0, 0, 0, 256, 0x200, 0x300, 0x700])
                 p.op("LDAC", stream); p.op("LDBM", 1); p.op("STAI", 2); p.op("LDAC", 2); p.opr(3)
+                for _ in range(r.choice([0, 0, 0, 1, 2])):
+                    p.opr(3)                                  # back-to-back reads: each consumes a byte
                 p.op("LDBM", 1); p.op("LDBI", 1)
                 if r.chance(1, 2):
                     # make all 32 bits of the value read observable: branch on its sign / on value - 128
@@ -271,7 +275,9 @@ def run_case(r: Rng, tracing=0, max_cycles=0, fill=0, size=None, debug=False, tr
     if debug:
         n = 1 + r.below(4)
         offs = sorted(set(r.below(len(code)) for _ in range(n)))
-        dbg = [(r.choice(["main", "f", "g", "put", "x1"]) + (str(i) if r.chance(1, 2) else ""), o) for i, o in enumerate(offs)]
+        # names of every length (the trace label is "<name>+<offset>" whatever its width)
+        dbg = [(r.choice(["main", "f", "g", "put", "x1", "countdownandsum", "a_procedure_with_a_long_name", "q" * (1 + r.below(60))])
+                + (str(i) if r.chance(1, 2) else ""), o) for i, o in enumerate(offs)]
     f = image_file(code, dbg)
     n = r.below(6)
     stdin = "".join(format(r.choice([0x41, 0, 0x80, 0xFF, r.below(256)]), "02x") for _ in range(n)) or "-"
